@@ -26,13 +26,15 @@ func TestVerif_C09_pair(t *testing.T) {
 	r := s.Rand()
 	kinds := []string{"NB", "B", "B", "CH", "HD", "BX", "BK", "NBK", "BI"}
 	n := verifh.N(150, 2500)
+	nBad := 0
+	wedged := false
 	for cs := 0; cs < n; cs++ {
 		rec := newC09Rec()
 		o, err := newC09H1Origin(rec, 1, "", 0)
 		if err != nil {
 			t.Fatalf("listen: %v", err)
 		}
-		cl := C().SetTimeout(20 * time.Second)
+		cl := C().SetTimeout(8 * time.Second)
 		cl.SetLogger(nil)
 		tr := cl.GetTransport()
 		tr.Proxy = nil
@@ -90,10 +92,31 @@ func TestVerif_C09_pair(t *testing.T) {
 			rq := cl.R().SetContext(httptrace.WithClientTrace(context.Background(), trace)).
 				SetHeader("X-Tag", strconv.Itoa(tag)).SetHeader("X-Plan", pl.String()).DisableAutoReadResponse()
 			var resp *Response
-			if kind == "HD" {
-				resp, err = rq.Head("http://" + o.addr() + "/p")
-			} else {
-				resp, err = rq.Get("http://" + o.addr() + "/p")
+			// a broken read/write loop can wedge roundTrip in a plain channel send that no
+			// timeout reaches: bound the call from outside
+			type result struct {
+				resp *Response
+				err  error
+			}
+			resCh := make(chan result, 1)
+			go func() {
+				var rs result
+				if kind == "HD" {
+					rs.resp, rs.err = rq.Head("http://" + o.addr() + "/p")
+				} else {
+					rs.resp, rs.err = rq.Get("http://" + o.addr() + "/p")
+				}
+				resCh <- rs
+			}()
+			select {
+			case rs := <-resCh:
+				resp, err = rs.resp, rs.err
+			case <-time.After(20 * time.Second):
+				s.Crash("c09pair "+strings.Join(seq, ","), strings.Join(seq, " "), "request "+strconv.Itoa(i)+" ("+kind+") never returned although the client timeout is 8 s: the connection's read/write loop is wedged", "")
+				wedged = true
+			}
+			if wedged {
+				break
 			}
 			if err != nil {
 				ok = false
@@ -137,11 +160,20 @@ func TestVerif_C09_pair(t *testing.T) {
 			mu.Unlock()
 			s.Count("kind-" + kind)
 		}
+		if wedged {
+			break // leave the wedged client and origin behind
+		}
 		tr.CloseIdleConnections()
 		o.stop()
 		answer := strings.Join(impl, ";")
 		nontrivial := strings.Contains(answer, ":1:") && strings.Count(answer, ":0:") >= 2
 		s.Case("c09pair "+strings.Join(seq, ","), answer, ok, "", nontrivial, strings.Join(seq, " ")+" -> "+answer)
+		if !ok {
+			nBad++
+			if nBad >= 3 { // a failing sequence usually means a hung request (8 s): stop early
+				break
+			}
+		}
 	}
 	s.Finish()
 }
